@@ -10,6 +10,21 @@ NOTE = ("Trusted: Lean 4.33 kernel; axioms propext/Classical.choice/Quot.sound o
         "tolerances; CPython/numpy/pint/scipy. Modelled rather than verified: the Python code itself.")
 
 CHECKS = {
+    "C05": {
+        "engine": "sched",
+        "text": ("Lean theorems: connect_order_independent (two listings of one composition: same success/failure, same "
+                 "exchanged set = least fixed point of the exchange rules, same reported components), lookup_append_stable "
+                 "(an answer an output can already give is not changed by later publications) with C09's refinement (nor by "
+                 "earlier evictions), and the run-phase theorems listed in the evidence file (every theorem of namespaces "
+                 "Props.C05*). Tied to schedule.py, connect_helper.py, sdk/output.py, sdk/input.py by running every generated "
+                 "composition through the real package under all / sampled permutations of the component list and of link "
+                 "creation (metamorphic oracle: same outcome class, exchanged metadata, final times, full received series with "
+                 "values that depend on pulled values) and through the Lean run loop / connect loop per permutation "
+                 "(correspondence on outcome, final times, statuses). One known finding (end time not after the start times: "
+                 "the single unconditional update of the do-while run loop goes to the first-listed component)."),
+        "design_ref": "5/C05",
+        "technique": "Lean 4 proof (least-fixed-point confluence of the connect rules; induction over publication histories; invariants of the run loop) + model/implementation correspondence under permutations",
+    },
     "C20": {
         "engine": "sched",
         "text": ("Lean theorems: static_out_once / static_history (one publication, served for every request time incl. "
